@@ -291,6 +291,13 @@ def _run_loss(case, lose_at):
                     c = live[op[1] % len(live)]
                     c['done'] = True
                     N.deliver(rig.conn, R.encode_message(2, 900, {5: c['serial']}))
+            elif k == 'error_reply':
+                live = [c for c in calls if not c['done']]
+                if live:
+                    c = live[op[1] % len(live)]
+                    c['done'] = True
+                    body = ('s', ['failed']) if op[1] % 2 else ('', [])
+                    N.deliver(rig.conn, R.encode_message(3, 903, {5: c['serial'], 4: 'org.verif.Error.E'}, *body))
             elif k == 'conn_cb':
                 cb = {'hits': [], 'active': True}
                 cb['fn'] = lambda conn, reason, cb=cb: cb['hits'].append((conn, reason))
@@ -450,7 +457,7 @@ def loss_case(draw, tier):
     n = draw(st.integers(1, 12))
     ncalls = 0
     for _ in range(n):
-        k = draw(st.sampled_from(['call', 'call', 'reply', 'conn_cb', 'conn_cb_cancel', 'proxy', 'proxy', 'proxy_cb',
+        k = draw(st.sampled_from(['call', 'call', 'reply', 'error_reply', 'conn_cb', 'conn_cb_cancel', 'proxy', 'proxy', 'proxy_cb',
                                   'proxy_cb', 'proxy_cb_cancel', 'advance']))
         if k == 'call':
             if ncalls >= 4:
@@ -463,7 +470,7 @@ def loss_case(draw, tier):
                         draw(st.sampled_from(['/obj', '/obj', '/other']))])
         elif k == 'advance':
             ops.append(['advance', draw(st.sampled_from([1, 4, 6, 30]))])
-        elif k in ('reply', 'conn_cb_cancel', 'proxy_cb', 'proxy_cb_cancel'):
+        elif k in ('reply', 'error_reply', 'conn_cb_cancel', 'proxy_cb', 'proxy_cb_cancel'):
             ops.append([k, draw(st.integers(0, 5))])
         else:
             ops.append([k])
@@ -478,6 +485,12 @@ def enum_loss(tier):
                        ['proxy_cb', 0], ['proxy_cb_cancel', 1]]}
     yield {'ops': [['call', None], ['call', 5], ['call', 20], ['call', 1], ['advance', 4], ['reply', 0], ['conn_cb'],
                    ['conn_cb'], ['conn_cb_cancel', 0]]}
+    # calls completed by method returns and by error replies (with and without body, with and without deadline)
+    # while others stay in flight and a proxy waits for the disconnect
+    for first in (['error_reply', 0], ['error_reply', 1], ['reply', 0]):
+        for t in (None, 5):
+            yield {'ops': [['call', t], ['call', 7], ['call', None], ['proxy', 'explicit', '/obj'], ['proxy_cb', 0], first,
+                           ['conn_cb']]}
 
 
 SUBCHECKS = [
